@@ -3506,3 +3506,40 @@ impl InconsistentTopicStatus {
         status
     }
 }
+
+/// Verification hook: writer-side request/offered QoS evaluation against a discovered reader.
+#[cfg(feature = "verif_hooks")]
+#[doc(hidden)]
+pub fn verif_reader_incompatible_qos(
+    writer_qos: &DataWriterQos,
+    discovered_reader_data: &SubscriptionBuiltinTopicData,
+    publisher_qos: &PublisherQos,
+) -> Vec<QosPolicyId> {
+    get_discovered_reader_incompatible_qos_policy_list(
+        writer_qos,
+        discovered_reader_data,
+        publisher_qos,
+    )
+}
+
+/// Verification hook: reader-side request/offered QoS evaluation against a discovered writer.
+#[cfg(feature = "verif_hooks")]
+#[doc(hidden)]
+pub fn verif_writer_incompatible_qos(
+    data_reader: &DataReaderEntity<impl RtpsReader>,
+    publication_builtin_topic_data: &PublicationBuiltinTopicData,
+    subscriber_qos: &SubscriberQos,
+) -> Vec<QosPolicyId> {
+    get_discovered_writer_incompatible_qos_policy_list(
+        data_reader,
+        publication_builtin_topic_data,
+        subscriber_qos,
+    )
+}
+
+/// Verification hook: partition pattern translation.
+#[cfg(feature = "verif_hooks")]
+#[doc(hidden)]
+pub fn verif_fnmatch_to_regex(pattern: &str) -> String {
+    fnmatch_to_regex(pattern)
+}
